@@ -260,7 +260,9 @@ EXT = {
            "Fagiolo motif clustering with W^[1/3], weighted path lengths); degree assortativity; eigenvector centrality and "
            "PageRank as residual conditions."
            ' Third round: average path length, closeness and efficiency with link lengths (definitions + order independence); windmill graphs with hub degrees 132 and 256 whose closed-form local and global measures are proved against the definitions on the small instances (Val_C03w).',
-    "C04": " Added: list-indexed cross / internal measures of InteractingNetworks under renumbering (balanced split from the spec).",
+    "C04": " Added: list-indexed cross / internal measures of InteractingNetworks under renumbering (balanced split from the spec)."
+           " Third round: the same network as GeoNetwork (coordinates renumbered with it: every geographic query), as ResNetwork "
+           "(resistances renumbered) and with a link attribute (link-weighted path family) before and after the permutation.",
     "C05": " Added: shuffled-edge igraph / edge-list paths, copies of non-matrix networks, signed attribute values, save-change-save "
            "histories, GeoNetwork / SpatialNetwork save-Load, total / mean weight consistency on every path."
            ' Third round: sparse input with explicitly stored zeros; a copy that is edited afterwards leaves the original unchanged.',
